@@ -13,6 +13,9 @@ func init() { register("C12", checkC12) }
 
 func checkC12(c *Ctx) {
 	r := c.R
+	r.Rule("R13.1", "(shared with C13) record first, on every destination of the set: the fan-out has its natural exit only")
+	r.Rule("R01.3", "(shared with C01) a Panic/Fatal call terminates exactly when it is admitted by the logger's own level: Entry.Level returns the receiver's own level field")
+	r.Rule("R10.3", "(shared with C10) creation copies only the documented settings")
 	r.Rule("R12.9", "the documented flags are the ones in force: AddFlags / RemoveFlags apply every flag of their argument list (the loop around the flag-word update has its natural exit only), so LnoInterrupt / Linterruptalways given after another flag are not dropped")
 	r.Rule("R01.8", "(shared with C01) package-level Panic/Fatal write and terminate for every kind of default logger: the dispatcher has an emitting arm for *logimp and for *Entry")
 	r.Rule("R03.1", "(shared with C03) record first: the routing decision function equals the documented one (an emptied per-level list for Panic/Fatal does not hide the error device)")
@@ -47,6 +50,9 @@ func checkC12(c *Ctx) {
 		testingPredicate(c, p)
 		c03Frames(c, p, m)
 		c03Routing(c, p, m)
+		c13Fanout(c, p, m)
+		c01Decision(c, p, m)
+		c10Creation(c, p, m)
 		flagLoopsTraversal(c, p, "R12.9")
 		c01DefaultKinds(c, p, m, "R01.8")
 	}
